@@ -119,6 +119,9 @@ def close(a, b, rtol=1e-10):
     return False, 'max abs difference %.3g (scale %.3g)' % (err, scale)
 
 
+_EXTRA = {}
+
+
 def compare(ref, got, perm, shape, two_d, method, path='', out=None, stats=None, skeys=(), rtol=None):
     """ref: result on sorted inputs; got: result on permuted inputs.  Collects (path, message)."""
     out = [] if out is None else out
@@ -163,6 +166,21 @@ def compare(ref, got, perm, shape, two_d, method, path='', out=None, stats=None,
         return out
     key = path.rstrip(']').split('/')[-1].split('[')[0]
     a = np.asarray(ref)
+    if (method == 'optimize_extended_range' and path.startswith('/params/method_params/') and key in PERPOINT
+            and not two_d and a.ndim == 1 and a.shape[0] > shape[0] and _EXTRA.get('oer_side')):
+        # a per-point output of the wrapped method that optimize_extended_range does not cut back (e.g. 'mask'):
+        # it covers the EXTENDED data = [added left part, the supplied points, added right part]; the added parts
+        # stay in place, the middle must follow the supplied order
+        extra_len = a.shape[0] - shape[0]
+        lo = {'left': extra_len, 'right': 0, 'both': extra_len // 2}[_EXTRA['oer_side']]
+        exp = np.concatenate((a[:lo], a[lo:lo + shape[0]][perm], a[lo + shape[0]:]))
+        ok, info = close(exp, got, rtol if rtol is not None else RTOL[False])
+        if stats is not None:
+            stats['leaves'] = stats.get('leaves', 0) + 1
+        if not ok:
+            out.append((path, 'per-point output of the wrapped method over the extended data (added parts fixed, the '
+                              'supplied points in between) is not the correspondingly permuted one: ' + str(info)))
+        return out
     is_pp = (path == '/baseline' or key in PERPOINT) and per_point_shape(a, shape)
     if method in XFIT_ORDER_METHODS and path != '/baseline':
         is_pp = False
@@ -410,7 +428,7 @@ def run_pair_2d(name, x, z, y, perm, build, with_logs=False, log_rtol=None):
     return res
 
 
-def judge(ref, got, perm, shape, two_d, name, stats=None, skeys=None, rtol=None):
+def judge(ref, got, perm, shape, two_d, name, stats=None, skeys=None, rtol=None, extra=None):
     """None when the property holds on this input, else a description."""
     if isinstance(ref, str) or isinstance(got, str):
         if isinstance(ref, str) and isinstance(got, str):
@@ -419,7 +437,10 @@ def judge(ref, got, perm, shape, two_d, name, stats=None, skeys=None, rtol=None)
             ref if isinstance(ref, str) else 'returns', got if isinstance(got, str) else 'returns')
     if skeys is None:
         skeys = sort_keys_of(name, two_d)
+    _EXTRA.clear()
+    _EXTRA.update(extra or {})
     diffs = compare(ref, got, perm, shape, two_d, name, stats=stats, skeys=skeys, rtol=rtol)
+    _EXTRA.clear()
     if diffs:
         return '; '.join('%s: %s' % d for d in diffs[:3])
     return None
@@ -639,6 +660,133 @@ def oracle_options(ctx, two_d, per_method, stats=None, with_weights=False):
     return found
 
 
+# wrapped methods, by module, with small-data kwargs; `pp` = the per-point keys the method reports
+WRAPPED = [
+    ('whittaker', 'asls', {'lam': 1e3}), ('whittaker', 'aspls', {'lam': 1e3}), ('whittaker', 'iasls', {'lam': 1e3}),
+    ('spline', 'pspline_asls', {'lam': 10, 'num_knots': 8}), ('spline', 'mixture_model', {'lam': 10, 'num_knots': 8}),
+    ('polynomial', 'modpoly', {}), ('polynomial', 'imodpoly', {}), ('polynomial', 'loess', {'fraction': 0.3}),
+    ('morphological', 'mpls', {'half_window': 4, 'lam': 1e3}), ('morphological', 'mor', {'half_window': 4}),
+    ('morphological', 'jbcd', {'half_window': 4}),
+    ('classification', 'fabc', {'lam': 1e3, 'scale': 3}), ('classification', 'dietrich', {'smooth_half_window': 2}),
+    ('classification', 'cwt_br', {'scales': [2, 3, 4]}), ('classification', 'std_distribution', {'half_window': 4}),
+    ('classification', 'rubberband', {'lam': 1.0}),
+    ('smooth', 'snip', {'max_half_window': 5}), ('misc', 'beads', {'freq_cutoff': 0.05, 'max_iter': 5}),
+]
+POLY_PARAM = ('modpoly', 'imodpoly', 'loess', 'dietrich', 'cwt_br')     # optimize_extended_range varies poly_order
+
+
+def wrapper_cases(n, w):
+    """Deterministic enumeration [(label, two_d, wrapper, builder(p) -> kwargs, extra)] of every optimizer/wrapper
+    method around wrapped methods of every module.  Combinations the wrapper does not support raise for both
+    orders and are counted trivial."""
+    out = []
+    for mod, meth, base in WRAPPED:
+        if mod in ('smooth', 'misc'):
+            continue
+        for sd in ('both', 'left', 'right'):
+            mn, mx = (1, 3) if meth in POLY_PARAM else (2, 4)
+            kw = {k: v for k, v in base.items() if k not in ('lam', 'poly_order')}
+            out.append(('optimize_extended_range[%s] side=%s' % (meth, sd), False, 'optimize_extended_range',
+                        lambda p, meth=meth, sd=sd, mn=mn, mx=mx, kw=kw: {
+                            'method': meth, 'side': sd, 'min_value': mn, 'max_value': mx, 'method_kwargs': dict(kw)},
+                        {'oer_side': sd}))
+        if meth in ('asls', 'aspls', 'pspline_asls', 'modpoly', 'fabc', 'mixture_model'):
+            kw = {k: v for k, v in base.items() if k not in ('lam', 'poly_order')}
+            wk = 'weights'
+            out.append(('optimize_extended_range[%s] side=both weights width_scale=0.2' % meth, False,
+                        'optimize_extended_range',
+                        lambda p, meth=meth, kw=kw: {
+                            'method': meth, 'side': 'both', 'width_scale': 0.2,
+                            'min_value': 1 if meth in POLY_PARAM else 2, 'max_value': 3 if meth in POLY_PARAM else 4,
+                            'method_kwargs': dict(kw, weights=(w > 0.3) if meth == 'fabc' and p is None else
+                                                  ((w > 0.3)[p] if meth == 'fabc' else (w if p is None else w[p])))},
+                        {'oer_side': 'both'}))
+    for mod, meth, base in WRAPPED:
+        if mod in ('polynomial', 'smooth', 'misc'):
+            continue
+        for avg in (True, False):
+            out.append(('collab_pls[%s] average_dataset=%s' % (meth, avg), False, 'collab_pls',
+                        lambda p, meth=meth, avg=avg, base=base: {'method': meth, 'average_dataset': avg,
+                                                                   'method_kwargs': dict(base)}, None))
+    for meth in ('modpoly', 'imodpoly', 'poly', 'penalized_poly', 'loess', 'quant_reg'):
+        for cf in (0.1, (0.2, 0.05)):
+            out.append(('adaptive_minmax[%s] cf=%s' % (meth, cf), False, 'adaptive_minmax',
+                        lambda p, meth=meth, cf=cf: {'method': meth, 'constrained_fraction': cf, 'poly_order': 2}, None))
+            out.append(('adaptive_minmax[%s] cf=%s weights' % (meth, cf), False, 'adaptive_minmax',
+                        lambda p, meth=meth, cf=cf: {'method': meth, 'constrained_fraction': cf,
+                                                     'weights': w if p is None else w[p]}, None))
+    for mod, meth, base in WRAPPED:
+        out.append(('custom_bc[%s]' % meth, False, 'custom_bc',
+                    lambda p, meth=meth, base=base: {'method': meth, 'regions': ((5, 20),), 'sampling': 3,
+                                                     'method_kwargs': dict(base)}, None))
+    return out
+
+
+def wrapper_cases_2d():
+    out = []
+    for mod, meth, base in WRAPPED:
+        if meth in ('beads', 'jbcd', 'loess', 'cwt_br'):
+            continue
+        for axes in (0, 1, (0, 1), (1, 0)):
+            kw = dict(base)
+            if 'half_window' in kw:
+                kw['half_window'] = 2
+            if 'num_knots' in kw:
+                kw['num_knots'] = 5
+            if meth == 'snip':
+                kw = {'max_half_window': 3}
+            out.append(('individual_axes[%s] axes=%s' % (meth, axes), True, 'individual_axes',
+                        lambda p, meth=meth, axes=axes, kw=kw: {'method': meth, 'axes': axes, 'method_kwargs': dict(kw)},
+                        None))
+    return out
+
+
+def oracle_wrappers(ctx, stats=None, reps=1):
+    """optimize_extended_range, collab_pls, adaptive_minmax, custom_bc (1-D) and individual_axes (2-D) around
+    wrapped methods of every module: EVERY per-point array nested anywhere inside params (method_params dicts and
+    lists: weights, mask, alpha, signal, ...) must be the correspondingly permuted one."""
+    rng = ctx.rng
+    found = 0
+    for rep in range(reps):
+        n = rng.choice([41, 47, 53])
+        x = distinct_x(rng, n, 0.0, rng.choice([100.0, 2000.0]))
+        y = y_1d(rng, x)
+        perm = rand_perm(rng, n)
+        wseed = rng.randrange(2 ** 31)
+        w = np.random.RandomState(wseed).uniform(0.05, 1.0, n)
+        for label, _, wrapper, build, extra in wrapper_cases(n, w):
+            ref, got, ld = run_pair_1d(wrapper, x, y, perm, build, with_logs=True)
+            ctx.case(('wrap', label, n, tuple(perm[:6])), nontrivial=not isinstance(ref, str), kind='oracle1d:wrappers')
+            err = judge(ref, got, perm, (n,), False, wrapper, stats, extra=extra) or ld
+            if err:
+                found += 1
+                ctx.fail('order:1d:%s:wrapped:%s' % (wrapper, label.split('[')[1].split(']')[0]),
+                         'Baseline(x[perm]).%s is not the permuted result of the sorted call (N=%d): %s' % (label, n, err),
+                         {'kind': 'wrappers', 'two_d': False, 'label': label, 'x': [float(v) for v in x],
+                          'y': [float(v) for v in y], 'perm': [int(v) for v in perm], 'wseed': wseed})
+        m, nn = rng.choice([(11, 14), (13, 12)])
+        x2 = distinct_x(rng, m, -3.0, 8.0)
+        z2 = distinct_x(rng, nn, 10.0, 50.0)
+        _, _, y2 = M.make_z2d(nprng(rng), m, nn)
+        for mode in ('x', 'z', 'xz'):
+            px = rand_perm(rng, m) if 'x' in mode else np.arange(m)
+            pz = rand_perm(rng, nn) if 'z' in mode else np.arange(nn)
+            for label, _, wrapper, build, extra in wrapper_cases_2d():
+                ref, got, ld = run_pair_2d(wrapper, x2, z2, y2, (px, pz), build, with_logs=True)
+                ctx.case(('wrap2', label, mode, m, nn, tuple(px[:4]), tuple(pz[:4])), nontrivial=not isinstance(ref, str),
+                         kind='oracle2d:wrappers')
+                err = judge(ref, got, (px, pz), (m, nn), True, wrapper, stats) or ld
+                if err:
+                    found += 1
+                    ctx.fail('order:2d:%s:wrapped:%s' % (wrapper, label.split('[')[1].split(']')[0]),
+                             'Baseline2D(x[px], z[pz]).%s is not the permuted result of the sorted call (shape %dx%d, '
+                             'permuted axes: %s): %s' % (label, m, nn, mode, err),
+                             {'kind': 'wrappers', 'two_d': True, 'label': label, 'x': [float(v) for v in x2],
+                              'z': [float(v) for v in z2], 'y': [[float(v) for v in row] for row in y2],
+                              'perm': [[int(v) for v in px], [int(v) for v in pz]], 'wseed': 0})
+    return found
+
+
 # ------------------------------------------------------------------------------------------------ setup log
 class SetupLog:
     """Records the weight array every _setup_* call returns (the array that reaches the solves).  On permuted
@@ -677,7 +825,8 @@ class SetupLog:
         return False
 
 
-LOG_EXEMPT = {'fabc', 'rubberband'}
+LOG_EXEMPT = {'fabc', 'rubberband', 'individual_axes'}   # individual_axes: one 1-D fit per row/column, run in the
+# SUPPLIED order of the other axis, so the sequence of _setup_* calls is itself permuted (outputs and nested params are compared)
 
 
 def _uses_fabc(name, build):
@@ -927,7 +1076,7 @@ Eval vm_compute in (bad ok cases).
     vals = ctx.coq_eval('extorder', text)
     ctx.obligations.append('correspondence:optimize_extended_range-new_sort_order')
     if vals is not None:
-        if ok_vals(vals):
+        if ok_vals(vals) and lits and not any(nm == 'correspondence:extended-order' for nm, _ in ctx.broken):
             ctx.discharged.append('correspondence:optimize_extended_range-new_sort_order')
         else:
             ctx.broke('correspondence:extended-order', 'extended_order model and optimizers.py disagree: %s' % vals)
@@ -1338,6 +1487,10 @@ def run(ctx):
     f1 = oracle_1d(ctx, b1, stats=stats)
     f2 = oracle_2d(ctx, b2, stats=stats)
     f3 = oracle_functional(ctx, b1)
+    f6 = oracle_wrappers(ctx, stats=stats, reps=ctx.n(1, 4) * (2 if stressed else 1))
+    ctx.note('optimizer/wrapper methods around wrapped methods of every module (whittaker, spline, polynomial, morphological, '
+             'classification incl. mask-reporting fabc/dietrich/cwt_br/std_distribution/rubberband, smooth, misc): %d cases per '
+             'repetition, every nested per-point array compared (%d failing)' % (len(wrapper_cases(41, np.ones(41))) + 3 * len(wrapper_cases_2d()), f6))
     thorough = ctx.tier == 'thorough' or stressed
     f4 = oracle_options(ctx, False, None, stats=stats, with_weights=thorough)
     f5 = oracle_options(ctx, True, None if thorough else 5, stats=stats, with_weights=ctx.tier == 'thorough')
@@ -1418,6 +1571,28 @@ def replay(rep):
             ref, got, ld = run_pair_1d(case['method'], x, y, perm, build, with_logs=True)
         err = judge(ref, got, perm, shape, two_d, case['method'], rtol=RTOL_OPTIONS[two_d]) or ld
         print('replay %s %s(%s):' % ('2-D' if two_d else '1-D', case['method'], opt), err or 'property holds on this input')
+        return 1 if err else 0
+    if kind == 'wrappers':
+        two_d = case['two_d']
+        x = np.array(case['x'])
+        y = np.array(case['y'])
+        if two_d:
+            perm = (np.array(case['perm'][0], dtype=np.intp), np.array(case['perm'][1], dtype=np.intp))
+            cases = wrapper_cases_2d()
+        else:
+            perm = np.array(case['perm'], dtype=np.intp)
+            cases = wrapper_cases(len(x), np.random.RandomState(case['wseed']).uniform(0.05, 1.0, len(x)))
+        hit = [c for c in cases if c[0] == case['label']]
+        if not hit:
+            print('replay: unknown wrapper case', case['label'])
+            return 1
+        label, _, wrapper, build, extra = hit[0]
+        if two_d:
+            ref, got, ld = run_pair_2d(wrapper, x, np.array(case['z']), y, perm, build, with_logs=True)
+        else:
+            ref, got, ld = run_pair_1d(wrapper, x, y, perm, build, with_logs=True)
+        err = judge(ref, got, perm, y.shape, two_d, wrapper, extra=extra) or ld
+        print('replay %s:' % label, err or 'property holds on this input')
         return 1 if err else 0
     if kind == 'functional':
         print('replay: functional-interface case %s; re-run ./bin/check C02 quick to reproduce (inputs are in the file)' % case.get('label'))
